@@ -1,6 +1,7 @@
 package checks
 
 import (
+	"bytes"
 	"encoding/json"
 	"fmt"
 	"math/rand"
@@ -368,6 +369,23 @@ func runC03(c *core.Ctx) {
 		g := &gen.DocGen{R: rr, Unusual: i%2 == 1}
 		run("v3", "generated", fmt.Sprintf("#%d", i), g.Doc(), false)
 	}
+	// examples that leave out properties with defaults, at every place an example may stand (Validate checks examples against
+	// their schemas, as requests under request bodies and parameters and as responses under responses)
+	{
+		sch := gen.S{"type": "object", "required": gen.Arr("name"), "properties": gen.S{"name": gen.S{"type": "string"}, "size": gen.S{"type": "integer", "default": 3.0}, "tags": gen.S{"type": "array", "items": gen.S{"type": "string"}, "default": gen.Arr("t")},
+			"inner": gen.S{"type": "object", "default": gen.S{}, "properties": gen.S{"depth": gen.S{"type": "integer", "default": 1.0}}}}}
+		ex := gen.S{"name": "n"}
+		mt := gen.S{"schema": sch, "example": ex}
+		mts := gen.S{"schema": sch, "examples": gen.S{"one": gen.S{"value": ex}, "two": gen.S{"value": gen.S{"name": "m", "inner": gen.S{}}}}}
+		doc := baseDoc(gen.S{"/e": gen.S{"post": gen.S{
+			"parameters":  gen.Arr(gen.S{"name": "q", "in": "query", "content": gen.S{"application/json": mt}}, gen.S{"name": "f", "in": "query", "style": "deepObject", "explode": true, "schema": sch, "example": ex}),
+			"requestBody": gen.S{"content": gen.S{"application/json": mt, "application/x-www-form-urlencoded": mts}},
+			"responses":   gen.S{"200": gen.S{"description": "d", "content": gen.S{"application/json": mts}, "headers": gen.S{"H": gen.S{"schema": sch, "example": ex}}}},
+		}}})
+		doc["components"] = gen.S{"schemas": gen.S{"WithExample": gen.S{"type": "object", "properties": gen.S{"a": gen.S{"type": "string", "default": "d"}}, "example": gen.S{}, "default": gen.S{}}},
+			"requestBodies": gen.S{"B": gen.S{"content": gen.S{"application/json": mts}}}, "examples": gen.S{"E": gen.S{"value": ex}}}
+		run("v3", "examples-omitting-defaulted-properties", "(directed)", doc, false)
+	}
 	for _, f := range repoTestdataDocs() {
 		if c.Mine(idx) {
 			c03File(c, f)
@@ -400,6 +418,25 @@ func c03One(c *core.Ctx, codec c03codec, kind, field string, input []byte, norma
 	if pi := core.Guard(func() { j1, err = json.Marshal(d1) }); pi != nil || err != nil {
 		c.Violate(map[string]string{"kind": "marshal_fails", "object": kind}, mkW(fmt.Sprint(err), "", ""), desc)
 		return
+	}
+	// the usual sequence is load, Validate, marshal: validating (with any options) writes nothing into the document
+	if doc, ok := d1.(*openapi3.T); ok {
+		for oi, opts := range [][]openapi3.ValidationOption{nil, {openapi3.EnableExamplesValidation()}, {openapi3.EnableSchemaFormatValidation(), openapi3.DisableSchemaPatternValidation()}} {
+			if pi := core.Guard(func() { doc.Validate(bgCtx, opts...) }); pi != nil {
+				continue // crashes of Validate are C20's business
+			}
+			jv, _ := json.Marshal(doc)
+			if !bytes.Equal(jv, j1) {
+				var jvTree, j1t any
+				json.Unmarshal(jv, &jvTree)
+				json.Unmarshal(j1, &j1t)
+				ptr, cls := firstDiff(j1t, jvTree, "")
+				c.Violate(map[string]string{"kind": "document_changed_by_Validate", "version": codec.version, "object": kind, "field": c03FieldOf(ptr, field), "class": cls, "options": fmt.Sprint(oi)},
+					mkW(string(jv), ptr, cls), fmt.Sprintf("%s\nthe document serialises differently after Validate (option set %d) at %s (%s)", desc, oi, ptr, cls))
+				break
+			}
+			c.Cover("sequence", "load-validate-marshal")
+		}
 	}
 	if field != "(required only)" {
 		c.Distinct(desc)
